@@ -391,11 +391,16 @@ def run_chunk(args):
             except Exception:
                 out.errors.append(f"shrink of run {idx}: " + traceback.format_exc())
                 continue
+            unstable = False
             if rr.violation is None:
-                out.errors.append(
-                    f"run {idx}: violation {vclass} did not reproduce from its own trace")
-                continue
+                # re-executing the very same history in this process passes: the process is
+                # no longer in the state the run started from (state kept per process by the
+                # library).  Report the run as generated; the parent replays the chunk
+                # prefix in a fresh interpreter.
+                unstable = True
+                small, ntests, rr = trace, 0, r
             out.violations.append({
+                "unstable_in_process": unstable,
                 "chunk_start": start,
                 "property": prop, "machine": machine_name, "seed": seed, "run": idx,
                 "tier": tier, "config": r.config, "trace": small,
